@@ -117,6 +117,61 @@ def sparse_flatten_section(ctx):
                     break
 
 
+def mixed_in_one_master_vf_section(ctx):
+    """a glyph that mixes a contour with a component in ONE master (the default, or the last one) and is a pure composite or a
+    pure outline -- of the same shape -- in the other: the variable font (glyf; cubic conversion on and off) instantiated at each
+    master's location renders every glyph, and gives it the advance, of that master compiled alone"""
+    import ufo2ft
+    from harness.props.c13 import flat_contours, same_rendering
+    from fontTools.ttLib import TTFont
+    from fontTools.varLib import instancer
+    rng = ctx.subrng("mixed-one-vf")
+    box = lambda x0, y0, x1, y1: [(Fr(x0), Fr(y0), "line"), (Fr(x1), Fr(y0), "line"), (Fr(x1), Fr(y1), "line"), (Fr(x0), Fr(y1), "line")]
+    one = (Fr(1), Fr(0), Fr(0), Fr(1))
+    for i in range(ctx.budget(8, 16)):
+        lib = ["ufoLib2", "defcon"][i % 2]
+        mixed_in = [0, 1][(i // 2) % 2]
+        other_form = ["composite", "outline"][(i // 4) % 2]
+        kw = {"convertCubics": False} if (i // 8) % 2 else {}
+        def master(k):
+            w = 60 * k
+            letter, accent = box(60 + 10 * k, 0, 440 + w, 500), box(-40, 0, 40 + w // 2, 80)
+            if k == mixed_in:        # the letter part redrawn, the accent left as a component
+                g = {"contours": [letter], "components": [("acutecomb", one + (Fr(250), Fr(550)))]}
+            elif other_form == "composite":
+                g = {"contours": [], "components": [("A", one + (Fr(0), Fr(0))), ("acutecomb", one + (Fr(250), Fr(550)))]}
+            else:
+                g = {"contours": [letter, [(x + 250, y + 550, t) for x, y, t in accent]], "components": []}
+            gl = [{"name": "A", "unicodes": [0x41], "width": Fr(500 + 70 * k), "contours": [letter], "components": [], "anchors": []},
+                  {"name": "acutecomb", "unicodes": [0x301], "width": Fr(0), "contours": [accent], "components": [], "anchors": []},
+                  dict(g, name="Aacute", unicodes=[0xC1], width=Fr(500 + 70 * k), anchors=[])]
+            return {"glyphs": gl, "glyphOrder": ["A", "acutecomb", "Aacute"], "kerning": {}, "groups": {}, "lib": {}, "features": "",
+                    "info": {"familyName": "Fam", "styleName": "M%d" % k, "unitsPerEm": 1000, "ascender": 800, "descender": -200}}
+        masters = [master(0), master(1)]
+        case = {"function": "compileVariableTTF", "options": jsonable(kw), "lib": lib, "masters": [jsonable(m) for m in masters],
+                "variant": "Aacute is mixed in master %d only, a pure %s in the other" % (mixed_in, other_form)}
+        ctx.count(); ctx.klass("variable font: glyph mixed in master %d only / %s elsewhere%s" % (mixed_in, other_form, " / no cubic conversion" if kw else ""))
+        ctx.nontriv(("m1vf", i, ctx.scale))
+        try:
+            ds, fonts = dsgen.make_designspace(rng, masters, lib, instances=False)
+            vf = ufo2ft.compileVariableTTF(ds, useProductionNames=False, **kw)
+            b = io.BytesIO(); vf.save(b)
+            alone = [ufo2ft.compileTTF(build_font(m, lib), useProductionNames=False, **kw) for m in masters]
+        except Exception as e:
+            ctx.spec_failure(case, "compile raised %s: %s\n%s" % (type(e).__name__, e, traceback.format_exc()[-1000:]))
+            continue
+        for k, wght in enumerate([100, 900]):
+            inst = instancer.instantiateVariableFont(TTFont(io.BytesIO(b.getvalue())), {"wght": wght})
+            b2 = io.BytesIO(); inst.save(b2); inst = TTFont(io.BytesIO(b2.getvalue()))
+            b3 = io.BytesIO(); alone[k].save(b3); ref = TTFont(io.BytesIO(b3.getvalue()))
+            bad = [n for n in ("A", "acutecomb", "Aacute") if not same_rendering(flat_contours(ref, n), flat_contours(inst, n), tol=1.5)
+                   or abs(inst["hmtx"][n][0] - ref["hmtx"][n][0]) > 1]
+            if bad:
+                ctx.spec_failure(dict(case, master=k, glyphs=bad), "at master %d's location the variable font renders %r (or gives them an advance) "
+                                 "differently from that master compiled alone" % (k, bad))
+                break
+
+
 def collapse_section(ctx):
     """util.collapse_varscalar against Interp/Collapse.v: value lists of 1-5 masters in source order, agreeing pairwise in every
     pattern (all equal, first = last only, first = second only, none)"""
@@ -212,6 +267,7 @@ def collinear_section(ctx):
 
 
 def explore(ctx):
+    mixed_in_one_master_vf_section(ctx)
     collapse_section(ctx)
     collinear_section(ctx)
     from harness.props.c19 import varmodel_section
